@@ -78,6 +78,8 @@ def spell(tape, src, dst, noise=True):
         i = 1 + tape.draw(max(1, len(segs) - 1), 'sp.dot.i')
         segs.insert(i, tape.choice(('.', 'zz/..'), 'sp.dot.k'))
         path = '/'.join(segs)
+    if noise and path.endswith('/') and not q and tape.chance(1, 8, 'sp.dot.trailing'):
+        path += tape.choice(('.', 'zz/..', './.'), 'sp.dot.trailing.k')       # a trailing dot segment names the directory: '/d1/.' is '/d1/'
     same_origin = src is not None and src.origin.key() == dst.origin.key()
     form = tape.draw(6, 'sp.form') if noise else 0
     if same_origin and form in (1, 2):
